@@ -16,6 +16,7 @@
 import json
 import logging
 import re
+import uuid
 from functools import partial
 from typing import Any, Callable, Dict, List, Optional, Set
 
@@ -102,12 +103,27 @@ def eval_expression(expr: str, context: dict) -> Any:
                     value = escape_special_string_characters(value)
 
                     inner_expression_values.append(value)
+                # The values are pasted in only after the escaped brackets of the string itself
+                # have been resolved: brackets inside a value are text and must stay as they are
+                marker = f"\x00{uuid.uuid4().hex}:"
+                markers = [
+                    f"{marker}{idx}\x00" for idx in range(len(inner_expression_values))
+                ]
+                marker_iter = iter(markers)
                 string_expression = re.sub(
                     expression_pattern,
-                    lambda x: inner_expression_values.pop(0),
+                    lambda x: next(marker_iter),
                     string_expression,
                 )
-            string_expression = string_expression.replace("{{", "{").replace("}}", "}")
+                string_expression = string_expression.replace("{{", "{").replace(
+                    "}}", "}"
+                )
+                for marker_text, value in zip(markers, inner_expression_values):
+                    string_expression = string_expression.replace(marker_text, value, 1)
+            else:
+                string_expression = string_expression.replace("{{", "{").replace(
+                    "}}", "}"
+                )
             string_expression_values.append(string_expression)
     if string_expression_values:
         expr = re.sub(
